@@ -24,7 +24,7 @@ Theorem C17_history : forall ops, sorted (keys (fst (reg_run [] ops))).
 Proof. intros ops. apply reg_run_sorted. constructor. Qed.
 
 (* a removed (or never registered) handler is never invoked: only live ids appear in a delivery *)
-Theorem C17_only_live_invoked : forall t p owned i e, In e (fst (handle_packet t p owned i)) -> In (fst (fst e)) (keys t).
+Theorem C17_only_live_invoked : forall own t p owned i e, In e (fst (handle_packet own t p owned i)) -> In (fst (fst e)) (keys t).
 Proof. exact log_ids_live. Qed.
 
 Example C17_nonvacuous :
